@@ -1,6 +1,7 @@
 package main
 
 import (
+	"github.com/restic/restic/internal/backend"
 	"fmt"
 	"testing"
 	"time"
@@ -75,6 +76,7 @@ func TestVerifC09(t *testing.T) {
 			}
 			popts, pdesc := w.genPruneOpts()
 			combined := tp.Choose(2) == 0 && len(forgetIDs) > 0
+			stickySnapshotRemove := tp.Choose(4) == 0
 			r.Set("history", fmt.Sprint(hist))
 			r.Set("forget", len(forgetIDs))
 			r.Set("prune_opts", pdesc)
@@ -105,6 +107,10 @@ func TestVerifC09(t *testing.T) {
 					f = fault{Kind: "crash", At: k}
 				} else {
 					f = w.genFault("cancel")
+					if combined && stickySnapshotRemove {
+						// one of the snapshots to forget cannot be removed, everything else works
+						f = fault{Kind: "sticky", Op: "Remove", Type: backend.SnapshotFile, At: 1 + k%len(forgetIDs)}
+					}
 				}
 				where := "prune [" + pdesc + "] with " + f.String()
 				pr := w.newProc("prune")
